@@ -14,5 +14,5 @@ def main (args : List String) : IO UInt32 := do
   | ["model", "codec"] => engineLoop (fun (_ : Unit) l => ((), (stepCodec (splitWords l)).getD "bad-op")) () inp out; return 0
   | ["model", "prm"] => engineLoop stepPrm none inp out; return 0
   | ["oracle", "C09", o, i] => oracleLoop (fun (_ : Unit) op obs => ((), oracleC09 op obs)) () o i
-  | ["oracle", "C20", o, i] => oracleLoop oracleC20 none o i
+  | ["oracle", "C20", o, i] => oracleLoop oracleC20 (none, 0) o i
   | _ => IO.eprintln "usage: pvdriver model <engine> | oracle <name> <ops> <impl>"; return 2
